@@ -50,6 +50,7 @@ package pbcmpl
 
 //@ func header.Unmarshal returns (err)
 //@   requires h != nil
+//@   witness-gen buf = func() []byte { b := make([]byte, 30+r.Intn(8)); r.Read(b); return b }()
 //@   trusted encoding/binary.Read (reflection) is outside the subset; little-endian, fields in declaration order
 //@   ensures len(buf) >= 32 ==> err == nil
 //@   ensures len(buf) >= 32 ==> (forall k int :: 0 <= k && k < 16 ==> h.Version[k] == buf[k]) && h.HeaderSize == le64(buf, 16) && h.BodySize == le64(buf, 24)
@@ -68,6 +69,8 @@ package pbcmpl
 //@   ensures len(s) == 0 || hi.header.Version[len(s)-1] != 0
 //@   ensures forall k int :: len(s) <= k && k < 16 ==> hi.header.Version[k] == 0
 //@   ensures forall k int :: 0 <= k && k < len(s) ==> s[k] == hi.header.Version[k]
+// C06: on the version field of a frame for m (padded, not ending in NUL) the version of m comes back
+//@   ensures forall m iface :: verOK(m) && (forall k int :: 0 <= k && k < 16 ==> hi.header.Version[k] == ite(k < fverLen(m), fverByte(m, k), uint8(0))) ==> len(s) == fverLen(m) && (forall k int :: 0 <= k && k < len(s) ==> s[k] == fverByte(m, k))
 //@   assigns nothing
 
 //@ func headerInfo.GetHeaderSize returns (r)
@@ -110,7 +113,7 @@ package pbcmpl
 //@   assigns nothing
 
 //@ func Size returns (r)
-//@   ensures r == 32 + pbLen(msg)
+//@   ensures pbErr(msg) == nil ==> r == 32 + pbLen(msg)
 //@   assigns nothing
 
 // ---- C06/C07: ReadHeader / Unmarshal ----
@@ -123,6 +126,8 @@ package pbcmpl
 //@   ensures n == 32 ==> err == nil && h != nil && fresh(h) && h.header != nil && fresh(h.header)
 //@   ensures n == 32 ==> (forall k int :: 0 <= k && k < 16 ==> h.header.Version[k] == rdbyte(r, old(rdpos(r)) + k))
 //@   ensures n == 32 ==> h.header.HeaderSize == rd64(r, old(rdpos(r)) + 16) && h.header.BodySize == rd64(r, old(rdpos(r)) + 24)
+// C06: on a frame for m the header reports m's version field, header size 32, body size = encoded length
+//@   ensures forall m iface :: verOK(m) && rdlen(r) - old(rdpos(r)) >= 32 && hdrAt(r, old(rdpos(r)), m) ==> n == 32 && err == nil && h.header.HeaderSize == 32 && h.header.BodySize == uint64(pbLen(m)) && (forall k int :: 0 <= k && k < 16 ==> h.header.Version[k] == ite(k < fverLen(m), fverByte(m, k), uint8(0)))
 //@   ensures ncalls() == 0
 //@   dyntype h *headerInfo
 //@   assigns rdpos(r)
@@ -144,6 +149,8 @@ package pbcmpl
 
 //@ func Unmarshal returns (n, ver, err)
 //@   requires r != nil && msg != nil && rdInv(r)
+// concrete replay: half of the streams hold the frame Marshal writes for msg, plus trailing bytes
+//@   witness-gen r = func() io.Reader { if rnd.Intn(2) == 0 { return r }; var buf bytes.Buffer; if _, e := Marshal(&buf, msg); e != nil { return r }; return &verifReader{Data: append(buf.Bytes(), verifBytes(rnd, rnd.Intn(6))...), Fail: io.EOF, Chunk: 1 + rnd.Intn(40)} }()
 //@   ensures rdInv(r) && rdpos(r) == old(rdpos(r)) + n
 //@   ensures rdlen(r) - old(rdpos(r)) < 32 ==> n == rdlen(r) - old(rdpos(r)) && err != nil && cause(err) == cause(rdShort(r, n)) && len(ver) == 0 && ncalls() == 0
 //@   ensures rdlen(r) - old(rdpos(r)) >= 32 ==> 0 <= len(ver) && len(ver) <= 16 && (len(ver) == 0 || rdbyte(r, old(rdpos(r)) + len(ver) - 1) != 0)
@@ -152,4 +159,8 @@ package pbcmpl
 //@   ensures rdlen(r) - old(rdpos(r)) >= 32 && rd64(r, old(rdpos(r)) + 16) == 32 && uint64(rdlen(r) - old(rdpos(r)) - 32) < rd64(r, old(rdpos(r)) + 24) ==> n == rdlen(r) - old(rdpos(r)) && err != nil && cause(err) == cause(rdShort(r, n - 32)) && ncalls() == 0
 //@   ensures rdlen(r) - old(rdpos(r)) >= 32 && rd64(r, old(rdpos(r)) + 16) == 32 && uint64(rdlen(r) - old(rdpos(r)) - 32) >= rd64(r, old(rdpos(r)) + 24) ==> n == 32 + int64(rd64(r, old(rdpos(r)) + 24)) && ncalls() == 1 && callarg(0, 1) == msg && cause(err) == cause(callret(0, 0))
 //@   ensures ncalls() == 1 ==> len(callarg(0, 0)) == n - 32 && (forall k int :: 0 <= k && k < len(callarg(0, 0)) ==> callarg(0, 0)[k] == rdbyte(r, old(rdpos(r)) + 32 + k))
+// C06 round trip: when the stream holds the frame Marshal writes for m, exactly that frame is consumed,
+// m's version comes back and proto.Unmarshal receives exactly m's encoding
+//@   ensures forall m iface :: frameAt(r, old(rdpos(r)), m) ==> n == 32 + int64(pbLen(m)) && len(ver) == fverLen(m) && (forall k int :: 0 <= k && k < len(ver) ==> ver[k] == fverByte(m, k))
+//@   ensures forall m iface :: frameAt(r, old(rdpos(r)), m) ==> ncalls() == 1 && callarg(0, 1) == msg && cause(err) == cause(callret(0, 0)) && len(callarg(0, 0)) == pbLen(m) && (forall k int :: 0 <= k && k < pbLen(m) ==> callarg(0, 0)[k] == pbByte(m, k))
 //@   assigns rdpos(r)
